@@ -142,7 +142,8 @@ def graded_producer(ctx):
                       analysed=len(RESULT_PATH) + len(codegens))
 
 
-@rule("C13.graded-blades", props=["C13", "C01"], min_instances=2, mutants=[
+@rule("C13.graded-blades", props=["C13", "C01"], min_instances=5, mutants=[
+    ("graded blade positions follow ascending keys, not the canonical order of the grade", ("algebra", "                indices = self.algebra.indices_for_grade[g]", "                indices = sorted(self.algebra.indices_for_grade[g])")),
     ("graded blade marks the wrong position", ("algebra", "values=[int(bin_blade == i) for i in indices], grades=(g,))", "values=[int(bin_blade != i) for i in indices], grades=(g,))")),
 ])
 def graded_blades(ctx):
@@ -150,14 +151,15 @@ def graded_blades(ctx):
     repo = ctx.repo
     q = "algebra.BladeDict.__getitem__"
     fn = ctx.func(q)
-    for blade, key, g in (("e2", 2, 1), ("e13", 5, 2)):
-        c = f"{q}#graded:{blade}"
+    # in four dimensions the canonical order of grade 2 (e12 e13 e14 e23 e24 e34 = keys 3 5 9 6 10 12) is not ascending
+    for blade, key, g, d in (("e2", 2, 1, 3), ("e13", 5, 2, 3), ("e14", 9, 2, 4), ("e23", 6, 2, 4), ("e134", 13, 3, 4)):
+        c = f"{q}#graded:{blade}" + (f",d={d}" if d != 3 else "")
         made = {}
 
         def multivector(*a, **k):
             made.update(k)
             return Obj("MultiVector", {"made": True})
-        alg = rep_algebra(3, graded=True, extra_methods={"multivector": multivector})
+        alg = rep_algebra(d, graded=True, extra_methods={"multivector": multivector})
         me = Obj("BladeDict", {"algebra": alg, "blades": {}, "lazy": True})
         it = make_interp(repo)
         it.instance_classes["BladeDict"] = "algebra.BladeDict"
